@@ -94,8 +94,8 @@ def scenario(ctx):
     nseen = [len(rig.sent)]
     replies = {}
     pipe_dc = rig.conn.pipes[1]
-    budget = [2 + ds.choose(14)]
-    qbudget = [4 + ds.choose(30)]
+    budget = [2 + ds.choose(14 * (3 if ctx.tier == 'thorough' else 1))]
+    qbudget = [4 + ds.choose(30 * (3 if ctx.tier == 'thorough' else 1))]
     epoch = [0]
 
     def new_signals():
@@ -360,10 +360,10 @@ def scenario(ctx):
     expected = expected_wrap      # noqa: F811
 
     op_export()
-    sched.run(500, extra, invariant)
+    sched.run(500 * (3 if ctx.tier == 'thorough' else 1), extra, invariant)
     budget[0] = 0
     qbudget[0] = 0
-    ok = sched.drain(500, None, invariant)
+    ok = sched.drain(500 * (3 if ctx.tier == 'thorough' else 1), None, invariant)
     if not ok:
         raise Violation('C16/liveness', 'no quiescence', 'drain did not reach quiescence')
     if rig.conn.a.state == net.OPEN:
